@@ -545,3 +545,7 @@ def dtab_scope(ctx, prog):
 dtab_scope.rule_id = "C02.DTAB-scope"
 
 RULES = [guard_bypass, wmc_link, pdom_height, ensure_raise, dtab_can_recompute, dtab_scope, data_edge_ends, guard_every_rhs_node]
+
+# control signature of the bookkeeping effects this property depends on (rules/ctrlsig.py)
+from .ctrlsig import make_rule as _ctrl_rule  # noqa: E402
+RULES.append(_ctrl_rule("C02"))
